@@ -1,9 +1,11 @@
 mod alloc_count;
 mod check;
+mod clock;
 mod core;
 mod flavour;
 mod l1;
 mod rng;
+mod val;
 
 #[global_allocator]
 static GLOBAL: alloc_count::Counting = alloc_count::Counting;
